@@ -19,6 +19,7 @@ class SimRaw(io.RawIOBase):
         self.mode = mode
         self.fd = fd
         self.pos = 0
+        self.orphan = None       # content of an unlinked-while-open file (POSIX: the handle keeps its inode)
 
     def readable(self):
         return self.mode == "r"
@@ -35,7 +36,7 @@ class SimRaw(io.RawIOBase):
     def readinto(self, b):
         fs = self.fs
         fs._y("read")
-        data = fs.files.get(self.path)
+        data = self.orphan if self.orphan is not None else fs.files.get(self.path)
         if data is None:
             raise OSError(errno.EIO, "file vanished")
         chunk = bytes(data[self.pos:self.pos + len(b)])
@@ -50,6 +51,12 @@ class SimRaw(io.RawIOBase):
         fs._y("write")
         data = bytes(b)
         fs._fault("write", self.path)
+        if self.orphan is not None:
+            # the name was removed while this handle was open: the bytes go to an inode no name refers to any more
+            self.orphan[self.pos:self.pos + len(data)] = data
+            fs.trace.append(("owrite", self.path, self.pos, data))
+            self.pos += len(data)
+            return len(data)
         f = fs.files.get(self.path)
         if f is None:
             raise OSError(errno.EIO, "file vanished")
@@ -184,18 +191,39 @@ class SimOS:
             raise IsADirectoryError(errno.EISDIR, "Is a directory", path)
         if p not in fs.files:
             raise FileNotFoundError(errno.ENOENT, "No such file or directory", path)
-        del fs.files[p]
+        gone = fs.files.pop(p)
+        for raw in fs.raws:
+            if raw.path == p and not raw.closed and raw.orphan is None:
+                raw.orphan = gone
+        for fd, q in list(fs.fds.items()):
+            if q == p:
+                fs.fds[fd] = "(unlinked)" + p       # an fsync of it concerns no named file
         fs.trace.append(("unlink", p))
 
     unlink = remove
 
     def listdir(self, path):
         p = posixpath.normpath(path)
+        if p not in self.fs.dirs:
+            raise FileNotFoundError(errno.ENOENT, "No such file or directory", path)
         out = set()
         for q in list(self.fs.files) + list(self.fs.dirs):
             if q != p and posixpath.dirname(q) == p:
                 out.add(posixpath.basename(q))
         return sorted(out)
+
+    def walk(self, top):
+        """os.walk, top-down (a directory that vanishes meanwhile is skipped, as os.walk does)."""
+        self.fs._y("listdir")
+        try:
+            names = self.listdir(top)
+        except OSError:
+            return
+        dirs = [n for n in names if posixpath.join(posixpath.normpath(top), n) in self.fs.dirs]
+        files = [n for n in names if n not in dirs]
+        yield top, dirs, files
+        for d in dirs:
+            yield from self.walk(posixpath.join(top, d))
 
 
 class SimFS:
